@@ -7,13 +7,14 @@ import tempfile
 import time
 import traceback
 import z3
-from . import sym, execu, calls, spec as specmod
+from . import sym, execu, calls, prep, spec as specmod
 from .sym import (V, Ty, Unsupported, NONE, Ref, fresh, fresh_value, parse_ty, cls_of)
 from .execu import Executor, State, Frame
 from .ops import Exc
 
 specmod.install_pure_ops(Executor)
 
+PREPARE = os.environ.get('PYVC_PREPARE', '1') == '1'
 Z3_TIMEOUT_MS = int(os.environ.get('PYVC_Z3_TIMEOUT_MS', '10000'))
 ALT_TIMEOUT_S = int(os.environ.get('PYVC_ALT_TIMEOUT_S', '40'))
 
@@ -122,6 +123,9 @@ def gen_obligations(table, specs, contract, cls):
         meta['paths'] += 1
         ss = calls._spec_state(s1, args, entry)
         ss.path = s1.path
+        for gname, gval in (s1.final_loc or {}).items():
+            if gname.startswith('g_') and gname not in ss.loc:
+                ss.loc[gname] = gval      # ghost locals are visible to postconditions
         if kind == 'return':
             meta['normal_paths'] += 1
             ss.loc['result'] = pay
@@ -201,35 +205,53 @@ def used_functions(terms):
     return names
 
 
+STRATEGIES = [
+    # (label, solver options, share of the time budget)
+    ('ematch', {'smt.mbqi': False, 'smt.auto_config': False}, 0.25),   # triggers only: fast unsat or fast give-up
+    ('default', {}, 1.0),
+]
+
+
 def discharge(ex, o, use_alt=True, both=False, timeout_ms=None, extra=()):
     t0 = time.time()
-    sol = z3.Solver()
-    sol.set('timeout', timeout_ms or Z3_TIMEOUT_MS)
     used = used_functions(list(o.pc) + [o.goal] + list(extra))
     axs = ex.axioms(used)
     if 'lsum' in used:
         axs = axs + calls.lsum_axioms()
-    sol.add(*axs)
-    sol.add(*o.pc)
-    sol.add(*extra)
-    sol.add(z3.Not(o.goal))
-    r = sol.check()
-    dt = time.time() - t0
-    status = 'proved' if r == z3.unsat else 'refuted' if r == z3.sat else 'unknown'
+    if PREPARE and sym.BOUND is None:
+        body = prep.prepare_query(list(o.pc) + list(extra), z3.Not(o.goal))
+    else:
+        body = list(o.pc) + list(extra) + [z3.Not(o.goal)]
+    budget = timeout_ms or Z3_TIMEOUT_MS
+    status, model, reason, sol = 'unknown', None, '', None
+    strategies = STRATEGIES if sym.BOUND is None else STRATEGIES[1:]
+    for label, opts, share in strategies:
+        sol = z3.Solver()
+        sol.set('timeout', int(budget * share))
+        for k, v in opts.items():
+            sol.set(k, v)
+        sol.add(*axs)
+        sol.add(*body)
+        r = sol.check()
+        if r == z3.unsat:
+            status = 'proved'
+            break
+        if r == z3.sat:
+            # a model is only believed from the complete configuration
+            if label == 'default':
+                status, model = 'refuted', sol.model()
+                break
+            continue
+        reason = sol.reason_unknown()
     backend = 'z3-5.1'
-    model = None
-    reason = ''
-    if status == 'refuted':
-        model = sol.model()
     if status == 'unknown' or both:
-        reason = sol.reason_unknown() if status == 'unknown' else ''
         if use_alt:
             smt2 = sol.to_smt2()
             alt = run_alt(smt2)
-            if status == 'unknown' and alt[0] in ('proved', 'refuted'):
+            if status == 'unknown' and alt[0] == 'proved':
                 status, backend = alt
                 reason = ''
-            elif both and alt[0] in ('proved', 'refuted') and alt[0] != status:
+            elif both and alt[0] in ('proved', 'refuted') and alt[0] != status and status != 'unknown':
                 status, backend = 'disagree', f'z3-5.1 vs {alt[1]}'
             elif both and alt[0] == status:
                 backend += '+' + alt[1]
